@@ -327,6 +327,8 @@ pub fn expr(p: &Prog, e: &E, d: usize) -> String {
         }
         E::While(c, b) => format!("while {} {}", expr(p, c, d), blk(p, b, d)),
         E::For(x, l, b) => format!("for x{x} in {} {}", operand(p, l, d), blk(p, b, d)),
+        // `{ }` in expression position is an empty record, not an empty block
+        E::Block(b) if b.stmts.is_empty() && b.last.is_none() => "{ () }".to_string(),
         E::Block(b) => blk(p, b, d),
         E::Assign(x, v) => format!("x{x} = {}", expr(p, v, d)),
         E::CAssign(op, x, v) => format!("x{x} {}= {}", op.sym(), expr(p, v, d)),
